@@ -37,6 +37,7 @@ func run(r *vk.Run) {
 		"from the case PRNG. Phase 'long' runs random histories of length 5-10. Booking part: random bookings and query periods on a small time grid "+
 		"through bookingpb.ModelServer (ListBookings / PullBookings with booking_intersects). A case is distinct by (predicate, history, subscribe point, "+
 		"mode, drain set, mask) resp. the rendered booking script, and non-trivial when at least one write happened while the subscriber was open or the seed was non-empty.",
+		"phase 'equivalence': random histories of length 3-9 on a collection configured with an equivalence (same tag), judged modulo that equivalence: same members as List(include), held value equivalent to the listed one",
 		"single writer; the consumer is either free-running or parked at a quiescent, drained point, so which writes are merged by the lossy path is an enumerated variable",
 		"every written value is unique (sequence number), the predicate reads only the tag field and the id",
 		"an absent item is not a member of the filtered collection whatever the predicate answers for a nil value",
@@ -55,6 +56,10 @@ func run(r *vk.Run) {
 	}
 	if r.Guard("C08/crash/multi-subscriber", "multi-subscriber scenarios") {
 		multiSubscriber(r)
+		r.Unguard()
+	}
+	if r.Guard("C08/crash/equivalence", "include on a collection with an equivalence") {
+		equivalencePhase(r)
 		r.Unguard()
 	}
 
